@@ -37,7 +37,11 @@
   right (the positions are then insertion slots).  Positivity of the ttls — the other fact the
   loop relies on — is proved, not assumed.
 
-  What is NOT proved: that the tables produced by `genTTLs` are exactly the leaves' lifetimes
+  [Update: `Props/C15b.lean` proves `genTTLs_exact` and the full property `C15` for
+  `getPrevPosFixed` (= the code of /repo now) on every history with at most 2^62 leaves, and shows
+  why the bound `2^63` of `C15_statement` below is too generous (finding C15.leftChildOfLeaf).]
+
+  What is NOT proved IN THIS FILE: that the tables produced by `genTTLs` are exactly the leaves' lifetimes
   (`genTTLs_exact_statement`).  With it the theorems above give the property in full
   (`C15_statement`); it needs the inverse-movement lemmas for `calcPrevPosition` /
   `undoSingleAdd` / `undoDel` in 63-row coordinates (shared with C08) and is left open.
